@@ -28,3 +28,24 @@ Print Assumptions C01_schema_preserved.
 Theorem C01_or_factoring : forall (p : pred) (v : nat -> k3), eval v (rewrite_filters p) = eval v p.
 Proof. exact or_factoring_sound. Qed.
 Print Assumptions C01_or_factoring.
+
+(* rewrite rules about positional selection (Head / Tail pushed into element-wise operations, Partitions pushed into element-wise
+   operations, Head(SortValues) -> NFirst): sound for all rows and partitionings under the stated side conditions *)
+From DX Require Import Select SelectProofs.
+Theorem C01_head_pushdown_elemwise_sound : forall A B C (f : A -> B -> C) n k (P1 : list (list A)) (P2 : list (list B)),
+  same_shape P1 P2 ->
+  head_spec n k (elemwise2 f P1 P2) = zipw f (head_spec n k P1) (head_spec n k P2).
+Proof. exact head_spec_elemwise2. Qed.
+Print Assumptions C01_head_pushdown_elemwise_sound.
+
+Theorem C01_partitions_pushdown_elemwise_sound : forall A B C (f : A -> B -> C) sel (P1 : list (list A)) (P2 : list (list B)),
+  same_shape P1 P2 -> Forall (fun i => i < length P1) sel ->
+  select sel (elemwise2 f P1 P2) = elemwise2 f (select sel P1) (select sel P2).
+Proof. exact select_elemwise2. Qed.
+Print Assumptions C01_partitions_pushdown_elemwise_sound.
+
+Theorem C01_sorted_head_rewrite_sound : forall A (key : A -> Z) n (parts sp : list (list A)),
+  sorted_partitioning key parts sp -> n <= length (hd [] sp) ->
+  head_spec n 1 sp = nfirst_tree key n parts.
+Proof. intros A key n parts sp H1 H2. rewrite nfirst_tree_correct. exact (head_of_sorted_is_nfirst A key n parts sp H1 H2). Qed.
+Print Assumptions C01_sorted_head_rewrite_sound.
